@@ -1,10 +1,10 @@
 ---------------------------- MODULE MC_CrossArgs ----------------------------
-(* Table of the argument check of teneva.cross for all 2^5 combinations of    *)
-(* the stop arguments (m, e, nswp, e_vld, validation data).                   *)
+(* Table of the argument check of teneva.cross for all 2^6 combinations of    *)
+(* the stop arguments (m, e, nswp, e_vld, validation indices, validation values). *)
 EXTENDS CrossContract, Json, TLC
 VARIABLE a
-AInit == a \in [hasM : BOOLEAN, hasEps : BOOLEAN, hasN : BOOLEAN, hasEv : BOOLEAN, hasData : BOOLEAN]
+AInit == a \in [hasM : BOOLEAN, hasEps : BOOLEAN, hasN : BOOLEAN, hasEv : BOOLEAN, hasI : BOOLEAN, hasY : BOOLEAN]
 ANext == UNCHANGED a
 ASpec == AInit /\ [][ANext]_a
-AEmit == PrintT(ToJson([args |-> a, ok |-> ArgsOK(a.hasM, a.hasEps, a.hasN, a.hasEv, a.hasData)]))
+AEmit == PrintT(ToJson([args |-> a, ok |-> ArgsOK6(a.hasM, a.hasEps, a.hasN, a.hasEv, a.hasI, a.hasY)]))
 =============================================================================
